@@ -345,7 +345,6 @@ func Shared(live, snap Idents) []string {
 	return res
 }
 
-
 // ---------------------------------------------------------------- canonical dump
 
 func sortValues(vs []reflect.Value) {
